@@ -123,7 +123,7 @@ def load_registry():
                         "desc": ann.get("desc", ""),
                         "finding": ann.get("finding", ""),
                         "env": dict(x.split("=", 1) for x in ann.get("env", "").split()),
-                        "twin_replay": ann.get("twin_replay", "no") == "yes",
+                        "twin_replay": ann.get("twin_replay", "no"),
                     }
                     if name in reg:
                         raise SystemExit(f"duplicate harness name {name}")
@@ -579,7 +579,8 @@ def main():
             continue
         # which twins are replayed is fixed by annotation (`//@ twin_replay: yes`), not by timing, so that
         # every run of a tier validates the same traces
-        if not byname[r["name"]].get("twin_replay") or os.environ.get("VERIF_TWIN_REPLAY_MAX_S") == "0":
+        tr_mode = byname[r["name"]].get("twin_replay", "no")
+        if not (tr_mode == "yes" or (tr_mode == "thorough" and args.tier == "thorough")) or os.environ.get("VERIF_TWIN_REPLAY_MAX_S") == "0":
             twin_replays.append({"harness": r["name"], "replayed": False, "why": "not annotated for replay (cost)"})
             continue
         h = byname[r["name"]]
